@@ -61,6 +61,9 @@ structure Cfg where
   ttl : Nat := 3600000              -- scanner TTL in model-clock units
   shuffle : Bool := false           -- the engine hands its partitions over in reversed order (harness wrapper)
   creatorNoReeval : Bool := false   -- refutations only: the creator as it was BEFORE fix eb6d1d1 (KB.Sys `createRecheck`)
+  creatorTombAboveIsCf : Bool := false -- refutations only: BEFORE fix 42e5238 a deletion record at / above the create's revision was a failed condition
+  ringLen : Nat := watchersChanCapacity -- slots of the sequencer's ring = tso.MaxInFlight (KB.Sys: `G.windowFull`)
+  dealUnguarded : Bool := false     -- refutations only: `tso.Deal` BEFORE fix 624b477 (never refuses)
   deriving Repr
 
 structure Watcher where
@@ -231,6 +234,21 @@ inductive WriteRes where
   | error (e : Err)
   deriving Repr, DecidableEq
 
+/-- What the creator answers when the record it looked at does not let it write: a deletion record at or above its own
+revision is a plain error since fix 42e5238 (the key IS absent, the condition did not fail; `creatorTombAboveIsCf` = the
+code before); a live record is a failed condition. -/
+def tombAbove (c : Cfg) (tomb : Bool) : CommitRes :=
+  if tomb && !c.creatorTombAboveIsCf then .err else .conflict none none
+
+theorem tombAbove_ne_ok (c : Cfg) (tomb : Bool) : tombAbove c tomb ≠ .ok := by
+  unfold tombAbove; split <;> simp
+
+theorem tombAbove_cases (c : Cfg) (tomb : Bool) :
+    (tombAbove c tomb = .err ∧ tomb = true ∧ c.creatorTombAboveIsCf = false) ∨
+    (tombAbove c tomb = .conflict none none ∧ (tomb = false ∨ c.creatorTombAboveIsCf = true)) := by
+  unfold tombAbove
+  cases tomb <;> cases c.creatorTombAboveIsCf <;> simp
+
 /-- `naiveCreator.CreateWithTTL`. Returns the commit-level outcome and the new store. -/
 def creatorCreate (c : Cfg) (st : Store) (key val : Bytes) (rev : Nat) (fs : List Fault) :
     CommitRes × Store × List Fault :=
@@ -259,7 +277,7 @@ def creatorCreate (c : Cfg) (st : Store) (key val : Bytes) (rev : Nat) (fs : Lis
           let (f2, fs) := nextFault fs
           let (r2, st) := doCommit c st [BOp.cas (idxKey key) (be8 rev) old, BOp.put (encode key rev) val] f2
           (r2, st, fs)
-        else (.conflict none none, st, fs)
+        else (tombAbove c tomb, st, fs)
   | r => (r, st, fs')
 
 /-- The loop of `CreateWithTTL` since fix eb6d1d1, from the compare-and-swap numbered `attempt` on, against the
@@ -286,7 +304,7 @@ def creatorOverLoop (c : Cfg) (ops1 : List BOp) (key val : Bytes) (rev : Nat) :
           | none => (.conflict i cv, st', fs)
           | some (p, tomb) =>
             if tomb && p < rev then creatorOverLoop c ops1 key val rev fuel (attempt + 1) st' cur fs
-            else (.conflict none none, st', fs)
+            else (tombAbove c tomb, st', fs)
     | r => (r, st', fs')
 
 /-- `naiveCreator.CreateWithTTL` as it is since fix eb6d1d1 (the compare-and-swap over a deletion record is the
@@ -315,7 +333,7 @@ def creatorCreateNow (c : Cfg) (st : Store) (key val : Bytes) (rev : Nat) (fs : 
       | none => (.err, st, fs)
       | some (prevRev, tomb) =>
         if tomb && prevRev < rev then creatorOverLoop c ops1 key val rev 4 0 st old fs
-        else (.conflict none none, st, fs)
+        else (tombAbove c tomb, st, fs)
   | r => (r, st, fs')
 
 def commitErr (r : CommitRes) : Err :=
